@@ -1,12 +1,12 @@
 //! C16: history independence judged without any model: every request on a long-lived instance
 //! is also sent to a freshly loaded instance and to a clone; the three answers must be equal.
-//! Second part: two different models paged alternately in one process (cursor ownership).
+//! Second part: two different models paged alternately in one process (cursor ownership): each
+//! must page through its own cycle, judged by its truth table.
 use crate::common::*;
 use crate::k_c01::{make_input, sources, write_models, Input};
 use crate::k_enum::fmt_cfgs;
 use crate::k_ops::random_list;
 use crate::rng::Rng;
-use ddnnife::ddnnf::anomalies::config_creation::verif as hook;
 use ddnnife::Ddnnf;
 use std::fmt::Write as _;
 use std::io::Write;
@@ -132,7 +132,6 @@ fn history_block(inp: &Input, rng: &mut Rng, quick: bool, s: &mut String) {
         }
     };
     s.push_str(&dump_circuit(&d));
-    crate::common::reset_cursor();
     let steps = if quick { 25 } else { 80 };
     for k in 0..steps {
         let q = random_req(rng, inp.n);
@@ -154,11 +153,28 @@ fn history_block(inp: &Input, rng: &mut Rng, quick: bool, s: &mut String) {
     writeln!(s, "end").unwrap();
 }
 
+/// Cursor ownership (the second sentence of C16): two different models are paged alternately in
+/// one process with the same assumptions.  Each model must page through ITS OWN cycle: the
+/// checker judges the pages of either model by that model's truth table (`xmodels`), as if the
+/// other model did not exist.  `xref` repeats the requests of each model on a further freshly
+/// loaded instance with nothing else going on in between (used to tell a cursor shared between
+/// models from a paging defect of one model, and as the reference when there is no truth table).
 fn cross_block(id: String, a: &Input, b: &Input, rng: &mut Rng, s: &mut String) {
     writeln!(s, "case {} C16X", id).unwrap();
     writeln!(s, "info two models paged alternately in one process: [{}] and [{}]", a.desc, b.desc).unwrap();
     writeln!(s, "n {}", a.n).unwrap();
-    let (mut da, mut db) = match (load(&a.lines, Some(a.n)), load(&b.lines, Some(b.n))) {
+    writeln!(s, "cursor_per_model {}", CURSOR_PER_MODEL as u8).unwrap();
+    let inputs = [a, b];
+    for (m, inp) in inputs.iter().enumerate() {
+        writeln!(s, "xn {} {}", m, inp.n).unwrap();
+        if let Some(ms) = &inp.models {
+            if inp.n <= 10 {
+                writeln!(s, "xmodels {} {}", m, join(ms)).unwrap();
+            }
+        }
+    }
+    let loaded = (load(&a.lines, Some(a.n)), load(&b.lines, Some(b.n)));
+    let (mut da, mut db) = match loaded {
         (Ok(x), Ok(y)) => (x, y),
         _ => {
             writeln!(s, "impl panic load").unwrap();
@@ -166,26 +182,32 @@ fn cross_block(id: String, a: &Input, b: &Input, rng: &mut Rng, s: &mut String) 
             return;
         }
     };
-    let seq: Vec<(usize, usize)> = (0..8).map(|_| (rng.below(2) as usize, 1 + rng.below(3) as usize)).collect();
-    // interleaved run
-    crate::common::reset_cursor();
+    // assumptions both models understand: none, or one literal over a feature of both
+    let nmin = a.n.min(b.n);
+    let asm: Vec<i32> = if nmin >= 1 && rng.coin() {
+        let f = 1 + rng.below(nmin as u64) as i32;
+        vec![if rng.coin() { f } else { -f }]
+    } else {
+        vec![]
+    };
+    let seq: Vec<(usize, usize)> = (0..10).map(|_| (rng.below(2) as usize, 1 + rng.below(3) as usize)).collect();
+    // interleaved run: both instances are fresh, nothing is reset
     for (m, k) in &seq {
         let d = if *m == 0 { &mut da } else { &mut db };
-        let r = answer(d, &Req::Enum(vec![], *k), "x");
-        writeln!(s, "xenum {} {} = {}", m, k, r).unwrap();
+        let r = answer(d, &Req::Enum(asm.clone(), *k), "x");
+        writeln!(s, "xenum {} {} | {} = {}", m, k, join(&asm), r).unwrap();
     }
-    // reference: each model alone in the process (cursor reset in between)
-    for m in 0..2usize {
-        crate::common::reset_cursor();
-        for (mm, k) in &seq {
-            if *mm == m {
-                let d = if m == 0 { &mut da } else { &mut db };
-                let r = answer(d, &Req::Enum(vec![], *k), "x");
-                writeln!(s, "xref {} {} = {}", m, k, r).unwrap();
+    // reference: the requests of each model alone on a further fresh instance
+    for (m, inp) in inputs.iter().enumerate() {
+        if let Ok(mut d) = load(&inp.lines, Some(inp.n)) {
+            for (mm, k) in &seq {
+                if *mm == m {
+                    let r = answer(&mut d, &Req::Enum(asm.clone(), *k), "x");
+                    writeln!(s, "xref {} {} | {} = {}", m, k, join(&asm), r).unwrap();
+                }
             }
         }
     }
-    crate::common::reset_cursor();
     writeln!(s, "end").unwrap();
 }
 
@@ -203,7 +225,7 @@ pub fn run(_kind: &str, ctx: &Ctx, out: &mut dyn Write) {
         k += 1;
         let mut s = String::new();
         history_block(&inp, &mut rng, quick, &mut s);
-        if k % 25 == 0 {
+        if k % 5 == 0 {
             if let Some(p) = &prev {
                 cross_block(format!("c16x-{}", k), p, &inp, &mut rng, &mut s);
             }
